@@ -233,7 +233,7 @@ def min_size(ex: Any, q: str, seen: Optional[Set[str]] = None) -> int:
     total = 0
     for p in c.reader or []:
         k = p[0]
-        if k in ("raw", "lenient"):
+        if k in ("raw",):
             total += p[1] if isinstance(p[1], int) else 0
         elif k == "uint":
             total += p[1]
